@@ -536,6 +536,7 @@ def _robust_gp_fit_(
         s2 = None
     new_hyp = hyp_gp.copy()
     n_try = 10
+    res = None
     success_flag = np.ones((n_try)).astype(bool)
     for i_try in range(0, n_try):
         try:
